@@ -17,7 +17,6 @@
 package jsonproto
 
 import (
-	"bytes"
 	"encoding/binary"
 	"io"
 	"strconv"
@@ -93,7 +92,7 @@ func (j *jsonproto) Pack(m erpc.Message) error {
 	bb.Write(msg6)
 	bb.WriteString(strconv.FormatInt(int64(m.BodyCodec()), 10))
 	bb.Write(msg7)
-	bb.Write(bytes.Replace(bodyBytes, []byte{'"'}, []byte{'\\', '"'}, -1))
+	bb.Write(escapeBody(bodyBytes))
 	bb.Write(msg8)
 
 	// do transfer pipe
@@ -171,4 +170,23 @@ func (j *jsonproto) Unpack(m erpc.Message) error {
 	body := gjson.Get(s, "body").String()
 	err = m.UnmarshalBody(goutil.StringToBytes(body))
 	return err
+}
+
+// escapeBody escapes the body bytes for the inside of a JSON string: the backslash and the
+// double quote are backslash-escaped and control characters are written as \u00XX (a raw
+// control character makes the reader cut the string short); all other bytes are kept as is.
+func escapeBody(b []byte) []byte {
+	const hex = "0123456789abcdef"
+	out := make([]byte, 0, len(b)+len(b)/8+2)
+	for _, c := range b {
+		switch {
+		case c == '\\' || c == '"':
+			out = append(out, '\\', c)
+		case c < ' ':
+			out = append(out, '\\', 'u', '0', '0', hex[c>>4], hex[c&0xf])
+		default:
+			out = append(out, c)
+		}
+	}
+	return out
 }
